@@ -69,7 +69,17 @@ package client
 // theory; what is stated are the structural facts the documented syntax relies on: each of the three
 // escapes is replaced at EVERY occurrence, an option is split into key and value at the FIRST '=' only,
 // and the closing brace replaces the last comma of a non-empty result.
+// strings.Split / SplitN return a new slice (they never hand back memory the caller already holds)
+//@ func strings.Split
+//@   flag trusted
+//@   ensures fresh(ret0)
+//@ func strings.SplitN
+//@   flag trusted
+//@   ensures fresh(ret0)
 //@ func ssvToJson
+//@   # the keys written WITHOUT quotation marks are exactly the numeric / boolean options of the README table
+//@   loop 0 invariant unquotedKeys: len(unquoted) == 4 && unquoted[0] == "NumConn" && unquoted[1] == "StreamTimeout" && unquoted[2] == "KeepAlive" && unquoted[3] == "UDP"
+//@   loop 1 invariant unquotedKeys: len(unquoted) == 4 && unquoted[0] == "NumConn" && unquoted[1] == "StreamTimeout" && unquoted[2] == "KeepAlive" && unquoted[3] == "UDP" && arrayOf(domains) != arrayOf(unquoted)
 //@   atcall Replace requires everyOccurrence: arg3.(int) == -1
 //@   atcall SplitN requires keyAndValueOnly: arg2.(int) == 2
 //@   flag noframe
